@@ -187,6 +187,23 @@ theorem hijacked_only_called (mac name : String) (s : Step) (h : hijacked mac na
   simp only [Bool.and_eq_true, beq_iff_eq] at hn
   exact List.mem_map.mpr ⟨(n, st), hm, hn.1⟩
 
+/-! ### parameter patterns -/
+
+/-- whatever binding mode the caller writes in the closure parameter of any of the four macros, the variable never
+    refers to the expansion's loop counter with write access: the form is rejected by the borrow checker or binds
+    the element / a copy of the index (as found `from_fn!` did alias it: `legacy_fromFn_refMut_aliases`, F11d) -/
+theorem pattern_never_aliases_counter (mac : String) (m : BindMode) (used : Bool) :
+    patVerdict (patPlace mac) m used ≠ .aliasesCounter := by
+  have h : ∀ p, p ≠ PatPlace.counter → patVerdict p m used ≠ .aliasesCounter := by
+    intro p hp; cases p <;> cases m <;> cases used <;> simp_all [patVerdict]
+  apply h
+  unfold patPlace
+  split <;> simp
+
+/-- `from_fn!` accepts every binding mode (the index is handed over by value, like std's closure parameter) -/
+theorem fromFn_pattern_accepts (m : BindMode) (used : Bool) : patVerdict (patPlace "from_fn") m used = .accept := by
+  cases m <;> rfl
+
 /-! ### non-vacuity -/
 
 example : (arrayMapN 10 [10, 11, 12] (fun _ a => .value (2 * a + 1))).calls = [(0, 10), (1, 11), (2, 12)] := by decide
